@@ -360,9 +360,28 @@ def d5_fallback(ck):
     ck.floor(rule, n, 15, 'mpi.comm / mpi.mpi4py attribute uses')
     # DummyComm.bcast root must be 0; callers with size()==1 pass root 0 or loop rank 0
     init = ck.repo.mod(INIT)
-    txt = init.src
-    ck.check('from .util import DummyComm as comm' in txt and 'from .util import dummy_mpi4py as mpi4py' in txt and 'def rank(): return 0' in txt and 'def size(): return 1' in txt,
-             rule + '.wiring', init, None, 'enspara.mpi', 'fallback wiring in enspara/mpi/__init__.py', 'without mpi4py: rank() == 0, size() == 1, comm = DummyComm', 'serial fallback wiring changed')
+    handlers = [h for t in init.tree.body if isinstance(t, ast.Try) for h in t.handlers
+                if h.type is not None and 'ImportError' in u(h.type) or h.type is None]
+    ok = False
+    node = None
+    for h in handlers:
+        consts = {}
+        imports = {}
+        for st in ast.walk(h):
+            if isinstance(st, ast.FunctionDef) and len(st.body) >= 1 and isinstance(st.body[-1], ast.Return):
+                consts[st.name] = const_value(st.body[-1].value)
+            if isinstance(st, ast.Assign) and isinstance(st.value, ast.Lambda) and isinstance(st.targets[0], ast.Name):
+                consts[st.targets[0].id] = const_value(st.value.body)
+            if isinstance(st, ast.ImportFrom) and (st.module or '').endswith('util'):
+                for a in st.names:
+                    imports[a.asname or a.name] = a.name
+        node = h
+        if consts.get('rank') == 0 and consts.get('size') == 1 and imports.get('comm') == 'DummyComm' and imports.get('mpi4py') == 'dummy_mpi4py':
+            ok = True
+            break
+    ck.check(ok, rule + '.wiring', init, node, 'enspara.mpi', 'ImportError handler of enspara/mpi/__init__.py',
+             'without mpi4py: rank() == 0, size() == 1, comm = DummyComm, mpi4py = dummy_mpi4py',
+             'the ImportError handler must define rank() -> 0, size() -> 1 and bind comm / mpi4py to DummyComm / dummy_mpi4py of mpi/util.py')
 
 
 def _top(mod, fn, st):
